@@ -448,7 +448,9 @@ size_t ZCK_PUBLIC_API zck_write_zck_header_cb(void *ptr, size_t l, size_t c,
             (long long unsigned) loc
     );
     wb = write(dl->zck->fd, ptr, l*c);
-    if(dl->write_cb)
+    /* The client's callback is only consulted once the library has taken the
+     * data: its return value must not replace a failed or short write */
+    if(dl->write_cb && wb == l*c)
         return dl->write_cb(ptr, l, c, dl->write_data);
     return wb;
 }
@@ -472,7 +474,10 @@ size_t ZCK_PUBLIC_API zck_write_chunk_cb(void *ptr, size_t l, size_t c, void *dl
         else
             wb = l*c;
     }
-    if(dl->write_cb)
+    /* The client's callback is only consulted once the library has taken the
+     * data: its return value must not replace a reported error (checksum
+     * mismatch, write failure, context in error) */
+    if(dl->write_cb && wb == l*c)
         return dl->write_cb(ptr, l, c, dl->write_data);
     return wb;
 }
